@@ -28,7 +28,52 @@
 import ast
 import importlib.util
 import os
-from translator.extract import Src, TieBroken, u, lean_bool, lean_str
+from translator.extract import Src, TieBroken, u, lean_bool, lean_str, lean_list
+
+
+MEMO_NAMES = {'lru_cache', 'cache', 'cached_property', 'memoize_method', 'time_cache', 'signature_time_cache',
+              '_memoize_default', 'inference_state_function_cache', 'inference_state_method_cache',
+              'inference_state_as_method_param_cache', 'inference_state_method_generator_cache', 'memoize'}
+
+
+def _helper_state(fns):
+    """What the helper-side module jedi/inference/compiled/subprocess/functions.py can REMEMBER between two requests
+    of the long-lived helper process: module-level containers, `global` statements, memo decorators, mutable
+    default arguments, attributes hung on functions.  importlib's own caches are outside (finding
+    C09-finder-stale-directory-listing).  Returns a list of descriptions; [] = the module is stateless."""
+    out = []
+    mutable = (ast.Dict, ast.List, ast.Set, ast.DictComp, ast.ListComp, ast.SetComp)
+    factories = {'dict', 'list', 'set', 'OrderedDict', 'defaultdict', 'deque', 'WeakKeyDictionary',
+                 'WeakValueDictionary', 'collections.OrderedDict', 'collections.defaultdict', 'collections.deque',
+                 'weakref.WeakKeyDictionary', 'weakref.WeakValueDictionary'}
+
+    def is_container(v):
+        return isinstance(v, mutable) or (isinstance(v, ast.Call) and u(v.func) in factories)
+    for n in fns.tree.body:
+        if isinstance(n, (ast.Assign, ast.AnnAssign)) and n.value is not None and is_container(n.value):
+            out.append('module-level container: ' + u(n)[:80])
+        if isinstance(n, ast.Assign) and any(isinstance(t, ast.Attribute) for t in n.targets):
+            out.append('attribute assigned at module level: ' + u(n)[:80])
+    for n in ast.walk(fns.tree):
+        if isinstance(n, (ast.Global, ast.Nonlocal)):
+            out.append('%s statement: %s' % (type(n).__name__.lower(), u(n)))
+        if isinstance(n, (ast.FunctionDef, ast.AsyncFunctionDef)):
+            for d in n.decorator_list:
+                d = d.func if isinstance(d, ast.Call) else d
+                if u(d).split('.')[-1] in MEMO_NAMES:
+                    out.append('memo decorator on %s: %s' % (n.name, u(d)))
+            for dflt in list(n.args.defaults) + [d for d in n.args.kw_defaults if d is not None]:
+                if is_container(dflt):
+                    out.append('mutable default argument of %s: %s' % (n.name, u(dflt)))
+            names = {x.name for x in ast.walk(fns.tree) if isinstance(x, (ast.FunctionDef, ast.AsyncFunctionDef))}
+            for a in ast.walk(n):
+                if isinstance(a, (ast.Assign, ast.AugAssign)):
+                    for t in (a.targets if isinstance(a, ast.Assign) else [a.target]):
+                        if isinstance(t, ast.Attribute) and isinstance(t.value, ast.Name) and t.value.id in names:
+                            out.append('attribute hung on a function in %s: %s' % (n.name, u(a)[:80]))
+                        if isinstance(t, ast.Subscript) and isinstance(t.value, ast.Name) and t.value.id.isupper():
+                            out.append('write into a module constant in %s: %s' % (n.name, u(a)[:80]))
+    return sorted(set(out))
 
 
 def generate(repo, g):
@@ -73,6 +118,10 @@ def generate(repo, g):
     fileio = Src(repo, 'jedi/file_io.py')
     fns = Src(repo, 'jedi/inference/compiled/subprocess/functions.py')
     stamp_full = _stamp_is_fs_mtime(fileio, fns, typeshed, inf)
+    g.define('helperModuleState', 'List String', lean_list(_helper_state(fns)),
+             'jedi/inference/compiled/subprocess/functions.py: everything the module could remember between two '
+             'requests of the long-lived helper (module-level containers, global statements, memo decorators, mutable '
+             'default arguments, attributes on functions)')
     g.define('cfg', 'JediModel.DiskCache.Cfg',
              '{ cache := %s, diff := %s, modCachePerScript := %s, stubListingCached := %s, '
              'stampIsFsMtime := %s }' % (
